@@ -521,4 +521,51 @@ theorem inside_isSubpath (root sub : Str) (h : inside root sub) : isSubpath root
         (by simp only [List.head?_cons, ne_eq, Option.some.injEq]; intro e; exact h1 (by simp [e])) n (by simp)
       obtain ⟨ha, hb⟩ := joinSep_name_ok n rest hn.1.1 hn.1.2.2 hn.2
       simp [ha, hb]
+/-! ### helpers of the property theorems -/
+
+/-- The string `Clean` returns is the string of its own cleaned form: splitting it at `/` gives
+    back exactly the cleaned elements (`cleanP` is a left inverse of rendering on clean paths). -/
+theorem clean_render_roundtrip (s : Str) : cleanP (cleanStr s) = cleanP s :=
+  cleanP_render _ (cleanP_good s)
+
+/-- `isSubpath(root, sub)` accepting (`ok = true`, `err = nil`) implies `sub` lies inside `root`. -/
+theorem isSubpath_inside (root sub : Str) (h : isSubpath root sub = (true, true)) : inside root sub := by
+  unfold isSubpath at h
+  split at h
+  · simp at h
+  · rename_i rel hrel
+    unfold relStr at hrel
+    obtain ⟨rs, hrs, hj⟩ := Option.map_eq_some_iff.mp hrel
+    subst hj
+    have hok : hasUpPrefix (joinSep rs) = false ∧ joinSep rs ≠ dotdot := by
+      simp only [Prod.mk.injEq, Bool.and_eq_true, Bool.not_eq_eq_eq_not, Bool.not_true, bne_iff_ne,
+        ne_eq, and_true] at h
+      exact h
+    have hgr := cleanP_good root
+    have hdot : dot ∉ (cleanP root).segs := by
+      obtain ⟨k, names, h1, h2, _⟩ := hgr
+      rw [h1]
+      intro hm
+      simp only [List.mem_append, List.mem_replicate] at hm
+      rcases hm with ⟨_, hd⟩ | hm
+      · simp [dot, dotdot] at hd
+      · exact (h2 dot hm).1.2.1 rfl
+    obtain ⟨hroot, r, hseg, hhead⟩ := relSegs_accepted (cleanP root) (cleanP sub) rs hdot hrs hok
+    have hnames := good_suffix_names (cleanP sub) (cleanP_good sub) (cleanP root).segs r hseg hhead
+    exact ⟨hroot, r, hseg, fun hm => (hnames _ hm).1.2.2 rfl, fun hm => (hnames _ hm).1.2.1 rfl,
+      fun hm => (hnames _ hm).1.1 rfl⟩
+
+/-- `Resolve` opens at most one file, namely `Clean(Join(root, p))`, and only if `isSubpath`
+    accepts it; in every other case it returns an error and touches no file. -/
+theorem resolve_cases (root p : Str) :
+    (resolve root p = .opened (cleanStr (joinStr root p)) ∧
+      isSubpath root (cleanStr (joinStr root p)) = (true, true)) ∨
+    resolve root p = .rejected ∨ resolve root p = .relError := by
+  unfold resolve
+  simp only
+  split
+  · right; right; rfl
+  · right; left; rfl
+  · rename_i h; left; exact ⟨rfl, h⟩
+
 end Ecal.Path
